@@ -2,6 +2,7 @@ import NrDaemon.Lemmas.Reservoir
 import NrDaemon.Lemmas.SlowSQL
 import NrDaemon.Spec.TopK
 import NrDaemon.Gen.Limits
+import NrDaemon.Props.Tied
 /-!
   C06 — when over capacity, the highest-priority items are the ones kept.
 
@@ -207,3 +208,10 @@ theorem C06_slow_sql_merge (s o : Slow) :
   dsimp only
   by_cases h1 : o.min < s.min <;> by_cases h2 : o.max > s.max <;>
     simp [h1, h2, Nat.min_def, Nat.max_def] <;> omega
+
+/-- **C06 (tie: the heap orders are the code's).**  `ErrorHeap.Less`, `TxnTraceHeap.Less` and
+`SamplingPriority.IsLowerPriority` (the order of the event reservoirs), as translated from the source on this run, compare
+their keys with `<` — the order the transcription of `container/heap` (`GoHeap.less`) is instantiated with. -/
+theorem C06_heap_orders_tied (p q : Int) :
+    Gen.Decisions.errorLess p q = decide (p < q) ∧ Gen.Decisions.traceLess p q = decide (p < q) ∧
+    Gen.Decisions.isLowerPriority p q = decide (p < q) := tied_less p q
